@@ -125,6 +125,8 @@ def random_history(args):
             ev['post'] = abstract_post(sess, o, ev['out'])
             events.append(ev)
         return {'init': init, 'events': events, 'cfg': cfg.as_dict(), 'seed': seed}
+    except am.ImplFailure as e:
+        return {'implfail': str(e)[:400], 'cfg': cfg.as_dict(), 'seed': seed}
     except Exception:
         return {'error': traceback.format_exc()}
     finally:
@@ -193,6 +195,10 @@ def run_random(run, prop, ntraces, nops, seed, big=True):
     for t in traces:
         if 'error' in t:
             raise Machinery('trace recorder failed: ' + t['error'])
+    for t in [t for t in traces if 'implfail' in t]:
+        run.violation('%s|trace|create_start_state' % prop, {'failure': t['implfail'], 'config': t['cfg']},
+                      {'kind': 'trace-start', 'seed': t['seed'], 'config': t['cfg']})
+    traces = [t for t in traces if 'implfail' not in t]
     focus = prop if prop in ('C02', 'C03', 'C08', 'C09', 'C13') else 'all'
     r, reached = validate(traces, focus)
     # the binding must be real: a corrupted record has to be rejected where it was corrupted
